@@ -9,6 +9,7 @@ use yui::poly::Poly;
 use yui::{EisenInt, EucRing, EucRingOps, GaussInt, Ratio, RingOps, FF};
 use yui_matrix::dense::snf::snf;
 use yui_matrix::dense::Mat;
+use yui_matrix::MatTrait;
 
 #[derive(Default)]
 pub struct Stats { pub events: usize, pub cases: usize, pub panics: usize, pub timeouts: usize, pub outside: usize, pub maxdigits: usize, pub zero_dim: usize, pub rank_deficient: usize }
@@ -48,15 +49,24 @@ fn case<R: BigEnt + EucRing>(rng: &mut StdRng, t: &mut Tracer, st: &mut Stats, c
             let r = if k == 0 { 0 } else { rng.gen_range(0..=k) }; if r < k { st.rank_deficient += 1; }
             let big = kind == 5 && bigdigits > 0;
             let mut d = vec![vec![<R as num_traits::Zero>::zero(); n]; m];
-            for i in 0..r { d[i][i] = if big { R::big(rng, bigdigits).unwrap_or_else(|| R::of_int([2, 3, 4, 6, 9, 5][rng.gen_range(0..6)])) } else { let x = [1, 2, 3, 4, 6, 9, 5, -2, 12][rng.gen_range(0..9)]; let y = R::rnd(rng, 3); if rng.gen_bool(0.3) && !num_traits::Zero::is_zero(&y) { y } else { R::of_int(x) } }; }
+            // ring elements that are not rational integers (non-real Gaussian / Eisenstein numbers, polynomials) are planted half of the time
+            for i in 0..r { d[i][i] = if big { R::big(rng, bigdigits).unwrap_or_else(|| R::of_int([2, 3, 4, 6, 9, 5][rng.gen_range(0..6)])) } else { let x = [1, 2, 3, 4, 6, 9, 5, -2, 12][rng.gen_range(0..9)]; let y = R::rnd(rng, 5); if rng.gen_bool(0.5) && !num_traits::Zero::is_zero(&y) { y } else { R::of_int(x) } }; }
             { use rand::seq::SliceRandom; let mut idx: Vec<usize> = (0..k).collect(); idx.shuffle(rng); let dd = d.clone(); for (a0, b0) in idx.iter().enumerate() { if a0 < k && *b0 < k { d[a0][a0] = dd[*b0][*b0].clone(); } } }
-            let (u, v) = (unimodular::<R>(rng, m, if big { 2 } else { 4 }, 2), unimodular::<R>(rng, n, if big { 2 } else { 4 }, 2));
+            // a third of the planted cases stay diagonal (only the diagonal fix-up and the unit normalisation run)
+            let steps = if rng.gen_range(0..3) == 0 { 0 } else if big { 2 } else { 4 };
+            let (u, v) = (unimodular::<R>(rng, m, steps, 2), unimodular::<R>(rng, n, steps, 2));
             mul(&mul(&u, &dense_of(&d, m, n)), &v) }
     };
+    run_matrix::<R>(rng, t, st, cid, &a, machine);
+}
+
+fn run_matrix<R: BigEnt + EucRing>(rng: &mut StdRng, t: &mut Tracer, st: &mut Stats, cid: usize, a: &Mat<R>, machine: bool) where for<'x> &'x R: EucRingOps<R> {
+    let (m, n) = a.shape();
+    let a = a.clone();
     st.maxdigits = st.maxdigits.max(digits(&a));
     t.emit(&json!({"op":"newcase","res":"ok","ring":R::ring(),"case":cid})); st.events += 1;
     let subsets: Vec<[bool; 4]> = { let mut v = vec![[true; 4], [false; 4]]; for _ in 0..3 { v.push([rng.gen(), rng.gen(), rng.gen(), rng.gen()]); } v.push([false, true, false, true]); v.push([true, false, true, false]); v };
-    let small_int = R::ring()["k"] == "I" && m.max(n) <= 4 && k <= 3;
+    let small_int = R::ring()["k"] == "I" && m.max(n) <= 4 && m.min(n) <= 3;
     for has in subsets {
         let a2 = a.clone();
         let out = with_deadline(30, move || { let r = snf(&a2, has); let (d, tr) = r.destruct(); (d, tr) });
@@ -82,6 +92,20 @@ fn case<R: BigEnt + EucRing>(rng: &mut StdRng, t: &mut Tracer, st: &mut Stats, c
     }
 }
 
+/// The complete family of 2x2 diagonal matrices diag(x, y) with x, y of coordinates 0..=c (first quadrant / sector): coprime non-real
+/// pairs make the diagonal fix-up produce products that must be re-normalised by a non-real unit.
+fn diag_family<R: BigEnt + EucRing>(a: &Args, salt: u64, t: &mut Tracer, st: &mut Stats, cid: &mut usize, mk: &dyn Fn(i64, i64) -> R, c: i64, picks: usize) where for<'x> &'x R: EucRingOps<R> {
+    let mut rng = a.rng(salt);
+    let mut all = vec![];
+    for a0 in 0..=c { for b0 in 0..=c { for a1 in 0..=c { for b1 in 0..=c { if (a0, b0) != (0, 0) && (a1, b1) != (0, 0) { all.push((a0, b0, a1, b1)); } } } } }
+    { use rand::seq::SliceRandom; all.shuffle(&mut rng); }
+    for (a0, b0, a1, b1) in all.into_iter().take(picks) {
+        *cid += 1; st.cases += 1;
+        let m = Mat::from_data((2, 2), [mk(a0, b0), R::of_int(0), R::of_int(0), mk(a1, b1)]);
+        run_matrix::<R>(&mut rng, t, st, *cid, &m, true);
+    }
+}
+
 pub fn record(a: &Args) {
     let mut t = Tracer::create(&a.out);
     let mut st = Stats::default();
@@ -91,6 +115,9 @@ pub fn record(a: &Args) {
     run!(i64, 1, maxd, 0, true); run!(BigInt, 2, maxd.min(4), big, false); run!(Ratio<i64>, 3, maxd.min(4), 0, true); run!(FF<3>, 4, maxd, 0, false); run!(FF<5>, 5, maxd, 0, false);
     run!(GaussInt<i64>, 6, maxd.min(4), 0, true); run!(GaussInt<BigInt>, 7, 3, big / 2, false); run!(EisenInt<i64>, 8, maxd.min(4), 0, true); run!(EisenInt<BigInt>, 9, 3, big / 2, false);
     run!(Poly<'x', FF<3>>, 10, 3, 0, false); run!(Poly<'x', Ratio<i64>>, 11, 3, 0, true);
+    let picks = if a.thorough() { 100000 } else { 40 };
+    diag_family::<GaussInt<i64>>(a, 21, &mut t, &mut st, &mut cid, &|x, y| GaussInt::new(x, y), 4, picks);
+    diag_family::<EisenInt<i64>>(a, 22, &mut t, &mut st, &mut cid, &|x, y| EisenInt::new(x, y), 4, picks);
     let n = t.finish();
     summary("record", json!({"events": n, "cases": st.cases, "panics": st.panics, "timeouts": st.timeouts, "machine_overflows_outside_envelope": st.outside, "max_entry_digits": st.maxdigits,
         "zero_dimensional_cases": st.zero_dim, "rank_deficient_cases": st.rank_deficient, "types": ["i64","BigInt","Ratio<i64>","FF<3>","FF<5>","GaussInt<i64>","GaussInt<BigInt>","EisenInt<i64>","EisenInt<BigInt>","Poly<x,FF<3>>","Poly<x,Ratio<i64>>"]}));
